@@ -82,6 +82,15 @@ def interface_kind_dispatch(prog):
     return disp
 
 
+def _ancestors18(node, fn):
+    out = []
+    p = getattr(node, '_parent', None)
+    while p is not None and p is not fn:
+        out.append(p)
+        p = getattr(p, '_parent', None)
+    return out
+
+
 def run(prog, rep):
     rep.extra['explanation'] = (
         'The quantifier is over configurations, so the two catalogue files are analysed as source: every entry is '
@@ -424,6 +433,34 @@ def run(prog, rep):
                 rep.violation('R3', loc(cmod, u), gq, f'{norm(u)} nested under "{other}"',
                               f'{pname} is only applied when the other list is supplied too: a caller who passes '
                               f'{pname} alone has it silently ignored')
+    # the same independence for the length checks: the number of ids / labels supplied is compared with the number of
+    # catalogued interfaces whenever THAT list is supplied, whether or not the other one is
+    for pname in ('interface_node_ids', 'interface_labels'):
+        other = 'interface_labels' if pname == 'interface_node_ids' else 'interface_node_ids'
+        lens_ = [c for c in walk_no_nested(gc) if isinstance(c, ast.Call) and isinstance(c.func, ast.Name) and c.func.id == 'len' and c.args and
+                 isinstance(c.args[0], ast.Name) and c.args[0].id == pname and
+                 any(isinstance(p_, ast.If) and any(isinstance(x, ast.Raise) for x in p_.body) and any(y is c for y in ast.walk(p_.test)) for p_ in _ancestors18(c, gc))]
+        ok_len = False
+        why = 'no count check'
+        for c in lens_:
+            tests_ = [p_ for p_ in _ancestors18(c, gc) if isinstance(p_, ast.If)]
+            conds_ = []
+            for t_ in tests_:
+                conds_ += [ctext(cj) for cj in conjuncts(canon(t_.test))]
+            _, outer_ = _enclosing(tests_[0], gc) if tests_ else ([], [])
+            conds_ += [ctext(cj) for c_ in outer_ if getattr(c_, '_guard', None) != 'Raise' for cj in conjuncts(canon(c_))]
+            own_ok = f'{pname} is not None' in conds_
+            dep_other = any(other in t_ for t_ in conds_ if not t_.startswith('len(' + pname))
+            if own_ok and not dep_other:
+                ok_len = True
+            else:
+                why = f'count check under {[t_ for t_ in conds_ if "is not None" in t_]}'
+        rep.instance('R3', f'{gq}: number of {pname} checked whenever they are supplied: {ok_len}')
+        if not ok_len:
+            rep.violation('R3', loc(cmod, lens_[0] if lens_ else gc), gq, f'count of {pname}: {why}',
+                          f'the number of {pname} is not checked against the number of catalogued interfaces whenever {pname} is supplied '
+                          f'(the check is missing, unguarded, or only made when {other} is supplied too): a caller who passes {pname} alone gets a '
+                          f'TypeError / IndexError, or has surplus entries silently dropped')
     disp = interface_kind_dispatch(prog)
     rep.instance('R3', f'{gq}: interface kind dispatch {disp}; catalogue types with interfaces {sorted(types_with_ifs)}')
     for t in sorted(types_with_ifs):
@@ -617,6 +654,8 @@ def run(prog, rep):
 
 
 MUTANTS = [
+    {'name': 'label-count-checked-only-with-ids', 'file': 'fim/slivers/component_catalog.py', 'rule': 'R3',
+     'find': "            if interface_labels is not None:\n                if len(interface_labels) != len(interfaces_dict.keys()):", 'replace': "            if interface_node_ids is not None:\n                if len(interface_labels) != len(interfaces_dict.keys()):"},
     {'name': 'unit-count-from-string-bdf', 'file': 'fim/slivers/component_catalog.py', 'rule': 'R3',
      'find': 'units = len(lab.bdf) if lab is not None and isinstance(lab.bdf, list) else 1', 'replace': 'units = len(lab.bdf) if lab is not None and lab.bdf is not None else 1'},
     {'name': 'filter-drops-disk', 'file': 'fim/slivers/instance_catalog.py', 'rule': 'R1',
